@@ -186,5 +186,6 @@ func (c *Ctx) RequireFn(fn *ssa.Function, what string) *ssa.Function {
 		c.Fatalf("role %q could not be resolved", what)
 	}
 	c.Saw(fn)
+	claimFn(fn)
 	return fn
 }
